@@ -102,15 +102,13 @@ pub fn ensure_unique_type_paths(types: &mut PortableRegistry) -> Result<(), Type
 /// - If the corresponding TypeDefs (shape of type) is different, they are different.
 /// - Else, recurse through any contained type IDs and start from the top.
 pub(crate) fn types_equal(a: u32, b: u32, types: &PortableRegistry) -> bool {
-    let mut a_visited = HashSet::new();
-    let mut b_visited = HashSet::new();
+    let mut visited = HashSet::new();
     types_equal_inner(
         a,
         &GenericsList::empty(),
-        &mut a_visited,
         b,
         &GenericsList::empty(),
-        &mut b_visited,
+        &mut visited,
         types,
     )
 }
@@ -119,10 +117,9 @@ pub(crate) fn types_equal(a: u32, b: u32, types: &PortableRegistry) -> bool {
 fn types_equal_inner(
     a: u32,
     a_parent_params: &GenericsList,
-    a_visited: &mut HashSet<u32>,
     b: u32,
     b_parent_params: &GenericsList,
-    b_visited: &mut HashSet<u32>,
+    visited: &mut HashSet<(u32, u32)>,
     types: &PortableRegistry,
 ) -> bool {
     // IDs are the same; types must be identical!
@@ -130,41 +127,9 @@ fn types_equal_inner(
         return true;
     }
 
-    // Make note of these IDs in case we recurse and see them again.
-    let seen_a = !a_visited.insert(a);
-    let seen_b = !b_visited.insert(b);
-
-    // One type is recursive and the other isn't; they are different.
-    // If neither type is recursive, we keep checking.
-    if seen_a != seen_b {
-        return false;
-    }
-
-    // Both types are recursive, and they look the same based on the above,
-    // so assume all is well, since we've already checked other things in prev recursion.
-    if seen_a && seen_b {
-        return true;
-    }
-
     // Make note of whether these IDs (might) correspond to any specific generic.
     let a_generic_idx = a_parent_params.index_for_type_id(a);
     let b_generic_idx = b_parent_params.index_for_type_id(b);
-
-    let a_ty = types.resolve(a).expect("type a should exist in registry");
-    let b_ty = types.resolve(b).expect("type b should exist in registry");
-
-    // Capture a few variables to avoid some repetition later when we recurse.
-    let mut types_equal_recurse =
-        |a: u32, a_params: &GenericsList, b: u32, b_params: &GenericsList| -> bool {
-            types_equal_inner(a, a_params, a_visited, b, b_params, b_visited, types)
-        };
-
-    // We'll lazily extend our type params only if the shapes match.
-    let calc_params = || {
-        let a_params = a_parent_params.extend(&a_ty.type_params);
-        let b_params = b_parent_params.extend(&b_ty.type_params);
-        (a_params, b_params)
-    };
 
     // If both IDs map to same generic param, then we'll assume equal. If they don't
     // then we need to keep checking other properties (eg Vec<bool> and Vec<u8> will have
@@ -174,6 +139,30 @@ fn types_equal_inner(
             return true;
         }
     }
+
+    // Make note of this *pair* of IDs in case we recurse and see it again. We are already
+    // comparing exactly these two types further up, so assume they are equal here; the
+    // comparison further up decides. (Tracking the two sides separately would accept any
+    // seen `a` next to any seen `b`, even if they were never compared with each other.)
+    if !visited.insert((a, b)) {
+        return true;
+    }
+
+    let a_ty = types.resolve(a).expect("type a should exist in registry");
+    let b_ty = types.resolve(b).expect("type b should exist in registry");
+
+    // Capture a few variables to avoid some repetition later when we recurse.
+    let mut types_equal_recurse =
+        |a: u32, a_params: &GenericsList, b: u32, b_params: &GenericsList| -> bool {
+            types_equal_inner(a, a_params, b, b_params, visited, types)
+        };
+
+    // We'll lazily extend our type params only if the shapes match.
+    let calc_params = || {
+        let a_params = a_parent_params.extend(&a_ty.type_params);
+        let b_params = b_parent_params.extend(&b_ty.type_params);
+        (a_params, b_params)
+    };
 
     // Paths differ; types won't be equal then!
     if a_ty.path.segments != b_ty.path.segments {
